@@ -600,4 +600,15 @@ func runC17(r *report.Report) {
 		r.AddExploration(cf.name, "history", fmt.Sprintf("all histories of depth %d over service API calls, broker behaviours, clock advances (failures %v, Stop/Start %v), delay bound %d, each followed by a cooperative-broker epilogue", cf.p.Depth, cf.p.Faults, cf.p.Stops, cf.bound), st,
 			"one execution = one history; resubscription / order / table / future clauses at every quiescence, liveness clauses in the epilogue; non-trivial = fault, resubscription, stop and restart events (counted)", "fault", "resubscribed", "stopped", "restarted")
 	}
+	// schedule mode: the dispatcher, the client's processor, Stop and a connection loss really overlap
+	rb := 2
+	if r.Tier == "thorough" {
+		rb = 3
+	}
+	for _, third := range []string{"none", "drop", "stop", "stop-clear", "stop+drop", "stop-clear+drop"} {
+		js, _ := json.Marshal(c17race{Third: third})
+		st := explore.Explore(explore.Config{Harness: "C17.race", Params: string(js), Bound: rb, Workers: report.Workers(), Deadline: r.Deadline()})
+		r.AddExploration("race-"+third, "schedule", fmt.Sprintf("two service commands (each subscribe / publish QoS 1 / unsubscribe) issued while online, an autonomous broker thread that answers at once, third party: %s; every schedule within delay bound %d, then timeouts pass and (after a Stop) the service is started again", third, rb), st,
+			"one execution = one schedule; calls and Stop return, futures complete (none) / resolve (Stop(true)) / publishes survive, commands reach the broker in issue order and are not lost; non-trivial = executions", "raced")
+	}
 }
